@@ -10,7 +10,8 @@
     iteration, in the break recovery and in the final map) is done by this check's own
     interpolation (vt/oracle/rescale_g.pl_map); post-rescale means must equal map(pre-rescale
     mean) at 1e-9 relative (both sides evaluate the same line; at a break continuity makes
-    either piece give the same value up to rounding; worst seen on the unchanged tree: 2e-15).
+    either piece give the same value up to rounding; worst seen on the unchanged tree, seeds 1..5:
+    < 8e-16, evidence field sum_over_shards_of_max_mapped_mean_rel_err).
 (b) kernel cases: mutational_area against a brute-force overlap of every positive-length edge
     with every interval between node times (1e-9 of the summed magnitudes: the code accumulates
     +x/-x with a running sum); mutational_timescale output is a valid monotone map (starts at
